@@ -60,6 +60,8 @@ ShapeVals(sh) ==
       [] sh = "list_n1"   -> <<"None", "i1">>          \* collections whose first element is None / falsy / empty
       [] sh = "list_0f"   -> <<"i0", "b0", "i2">>
       [] sh = "tuple_e"   -> <<"s", "sx">>
+      [] sh = "list_tt"   -> <<"ti1_i2", "ti3_i4">>    \* elements that are tuples stay tuples; numbers keep their type
+      [] sh = "list_mixnum" -> <<"f0.5", "i1", "i2">>
 
 VARIABLES decl          \* Seq([name, shape]) in declaration order                 (ParameterList._parameters)
 
